@@ -4,8 +4,8 @@ import (
 	"fmt"
 	"time"
 
-	"github.com/vicanso/pike/config"
 	"github.com/vicanso/pike/cache"
+	"github.com/vicanso/pike/config"
 	"pikemc/env"
 	"pikemc/vsched"
 )
